@@ -180,6 +180,9 @@ class Evaluator:
             raise Unfoldable(f"attribute {n.attr} not in domain object")
         if isinstance(base, tuple) and hasattr(base, "_fields") and n.attr in base._fields:
             return getattr(base, n.attr)
+        d = getattr(base, "__dict__", None)
+        if isinstance(d, dict) and n.attr in d and not n.attr.startswith("__"):
+            return d[n.attr]  # plain record supplied by the rule's sample domain
         raise Unfoldable(f"attribute read {ast.unparse(n)}")
 
     def _Subscript(self, n):
